@@ -65,6 +65,10 @@ def tdm_script(rng, with_params=False, with_loop=False):
     if rng.random() < 0.4:
         lines.append("int array B =\n    1, 2\n    3, 4")
         others.append("B")
+    if with_params and names and rng.random() < 0.4:
+        # an ordinary array given by ONE template parameter that is called like a p-array declared above ({p1}): the parameter and
+        # the p-array are different things, the p-array is still delivered by name afterwards
+        lines.append("float array Uph[1, %d] =\n    {%s}" % (rng.randint(1, 3), rng.choice(names)))
     lines.append("")
     lines += locals().get("pending", [])
     nst = rng.randint(1, 5)
